@@ -450,6 +450,8 @@ pub fn cmd_refs(t: &mut Toks, root: &std::path::Path) -> String {
         copy: Vec<u8>,
         growths_seen: u64,
         dead: bool,
+    /// the same id was stored again later (after a removal/replacement): the id now denotes the newer copy
+    superseded: bool,
     }
     let mut refs: Vec<Ref> = Vec::new();
     let (mut moved_growth, mut moved_nogrowth, mut changed, mut checks, mut stores, mut byid_diff) = (0u64, 0u64, 0u64, 0u64, 0u64, 0u64);
@@ -493,7 +495,11 @@ pub fn cmd_refs(t: &mut Toks, root: &std::path::Path) -> String {
                 *changed += 1;
                 r.dead = true;
             }
-            // the by-id path must lead to the same place
+            // the by-id path must lead to the same place (unless the id was stored again since)
+            if r.superseded {
+                r.growths_seen = g;
+                continue;
+            }
             if let Ok(Some(e2)) = st.get_event_by_id(Id::from_bytes(r.id)) {
                 if e2.as_bytes().as_ptr() as usize != a {
                     *byid_diff += 1;
@@ -506,9 +512,19 @@ pub fn cmd_refs(t: &mut Toks, root: &std::path::Path) -> String {
         for ev in events.iter() {
             if let Ok(off) = st.store_event(ev) {
                 stores += 1;
+                for r in refs.iter_mut() {
+                    if r.id == arr32(ev.id().as_slice()) {
+                        r.superseded = true;
+                    }
+                }
                 check(&mut refs, &mut moved_growth, &mut moved_nogrowth, &mut changed, &mut checks, &mut byid_diff);
                 let e = st.get_event_by_offset(off).unwrap();
-                refs.push(Ref { off, id: arr32(ev.id().as_slice()), addr: e.as_bytes().as_ptr() as usize, copy: e.as_bytes().to_vec(), growths_seen: GROWTHS.load(Ordering::SeqCst), dead: false });
+                for r in refs.iter_mut() {
+                    if r.id == arr32(ev.id().as_slice()) {
+                        r.superseded = true;
+                    }
+                }
+                refs.push(Ref { off, id: arr32(ev.id().as_slice()), addr: e.as_bytes().as_ptr() as usize, copy: e.as_bytes().to_vec(), growths_seen: GROWTHS.load(Ordering::SeqCst), dead: false, superseded: false });
             }
         }
     } else {
@@ -518,10 +534,22 @@ pub fn cmd_refs(t: &mut Toks, root: &std::path::Path) -> String {
             if let Ok(off) = st.store_event(ev) {
                 stores += 1;
                 let e = st.get_event_by_offset(off).unwrap();
-                refs.push(Ref { off, id: arr32(ev.id().as_slice()), addr: e.as_bytes().as_ptr() as usize, copy: e.as_bytes().to_vec(), growths_seen: GROWTHS.load(Ordering::SeqCst), dead: false });
+                for r in refs.iter_mut() {
+                    if r.id == arr32(ev.id().as_slice()) {
+                        r.superseded = true;
+                    }
+                }
+                refs.push(Ref { off, id: arr32(ev.id().as_slice()), addr: e.as_bytes().as_ptr() as usize, copy: e.as_bytes().to_vec(), growths_seen: GROWTHS.load(Ordering::SeqCst), dead: false, superseded: false });
             }
         }
         let rest = &events[half..];
+        for ev in rest.iter() {
+            for r in refs.iter_mut() {
+                if r.id == arr32(ev.id().as_slice()) {
+                    r.superseded = true;
+                }
+            }
+        }
         let n = std::sync::atomic::AtomicU64::new(0);
         std::thread::scope(|s| {
             for th in 0..threads {
